@@ -517,10 +517,16 @@ package kcp
 //@   modifies all(dec), allmaps(fecDecoder.shardSet), allof(shardHeap), allelems(fecPacket), allmaps(shardHeap.marks)
 //@   modifies dec.decodeCache[..], dec.flagCache[..], allbytes, all(DefaultSnmp)
 //@   ensures dec.wf()
+//@   ensures @C16 [matching-genuine-packet-never-retunes] !old(dec.shouldTune) && (old(le16(in, 4)) == 241 || old(le16(in, 4)) == 242)
+//@        && ((old(le32(in, 0)) % old(dec.shardSize) < old(dec.dataShards)) == (old(le16(in, 4)) == 241))
+//@        ==> !dec.shouldTune && dec.dataShards == old(dec.dataShards) && dec.parityShards == old(dec.parityShards) && dec.shardSize == old(dec.shardSize) && dec.paws == old(dec.paws)
+//@   ensures @C07 [emits-only-for-a-complete-group-with-missing-data] len(recovered) > 0 ==> len(pkts) >= dec.dataShards && numDataShard != dec.dataShards
+//@   ensures @C16 [retune-restarts-group-tracking] dec.shardSize != old(dec.shardSize) ==> dec.newestShardId == old(le32(in, 0)) / dec.shardSize
 //@   ensures @C05 [newest-group-tracking] len(pkts) >= 0 ==> itimediff(uint32(shardId * uint32(dec.shardSize)), uint32(dec.newestShardId * uint32(dec.shardSize))) <= 0
 //@   loop 3 invariant forall j int :: 0 <= j && j <= rangeindex ==> shards[j] == nil
 //@   loop 4 invariant shard.wf() && dec.wfSets() && (pkts == nil || fresh(pkts)) && maxlen >= 0 && maxlen <= 1494 && numDataShard >= 0
 //@   loop 4 invariant forall j int :: 0 <= j && j < len(shards) ==> shardok(shards[j], maxlen)
+//@   loop 4 invariant len(pkts) + len(shard.elements) >= dec.dataShards
 //@   loop 5 invariant forall j int :: rangeindex < j && j < len(shards) ==> shardok(shards[j], maxlen)
 //@   loop 5 invariant dec.wfSets() && (newBuffers == nil || fresh(newBuffers))
 //@   loop 6 invariant recovered == nil || fresh(recovered)
